@@ -2,7 +2,8 @@ SPECIFICATION Spec
 CONSTANTS
   MaxLen = 5
   MaxLen2 = 3
-  MaxPair = 4
+  MaxPair = 3
   MaxA2 = 4
+  ExportLen = 5
 INVARIANT Inv
 CHECK_DEADLOCK FALSE
